@@ -177,7 +177,7 @@ func padBuffer(buffer []byte, blockSize int) []byte {
 
 // Remove padding
 func unpadBuffer(buffer []byte, blockSize int) ([]byte, error) {
-	if len(buffer)%blockSize != 0 {
+	if len(buffer) == 0 || len(buffer)%blockSize != 0 {
 		return nil, errors.New("square/go-jose: invalid padding")
 	}
 
